@@ -591,7 +591,13 @@ func check(c Case) error {
 
 // TestSideBySide: independent sessions on several goroutines at once.
 func TestSideBySide(t *testing.T) {
-	ev.Parallel(t, prop, "side-by-side", 3, 100, 40, genCase, func(c Case) error { _, e := runCase(c); return e })
+	ev.Parallel(t, prop, "side-by-side", 3, 100, 40, func(t *rapid.T) Case {
+		c := genCase(t)
+		for i := range c.Steps {
+			c.Steps[i].Len = min(c.Steps[i].Len, 100000) // dozens of sessions are alive at once: keep each small
+		}
+		return c
+	}, func(c Case) error { _, e := runCase(c); return e })
 }
 
 func TestSession(t *testing.T) {
